@@ -22,8 +22,11 @@ def weird_value(rng, depth=2):
         forms = rng.sample(['=' + k, k, '~' + k, '==' + k], 2)
         return ('m', [(S(forms[0]), V.scalar(rng)), (S(forms[1]), V.scalar(rng))])
     if r < 0.34:
-        # container keys
-        return ('m', [(rng.choice([L(I(1), I(2)), M(('x', I(1))), L()]), V.scalar(rng)), (S('z'), I(1))])
+        # container keys, also below (nested) sequences: the text form of such a value is an error
+        m = ('m', [(rng.choice([L(I(1), I(2)), M(('x', I(1))), L()]), V.scalar(rng)), (S('z'), I(1))])
+        for _ in range(rng.choice([0, 0, 1, 2, 3])):
+            m = ('l', [V.scalar(rng), m] if rng.random() < 0.5 else [m])
+        return m
     if r < 0.44:
         return S(rng.choice(['${', '${}', '${a', '$[x]', '${a}}${', '\\${', '${${}}', '${x:y:z}', '${.}', '${:}', '${a:}', '${~}', '${emb}']))
     if depth > 0 and r < 0.7:
@@ -45,6 +48,12 @@ def weird_inv(rng):
         params = [(S('p%d' % i), weird_value(rng)), (S('sel'), S(rng.choice(names))),
                   (S('emb'), M(('a', I(1)), (rng.choice(['=a', 'a2']), I(2)))),
                   (S('txt'), S(rng.choice(['x ${emb}', '${p0}', 'y ${p%d}' % i, '${txt}'])))]
+        if rng.random() < 0.15:
+            # the text form of a value that has none (container key), at several sequence depths
+            jk = ('m', [(rng.choice([L(I(1), I(2)), M(('x', I(1)))]), V.scalar(rng))])
+            for _ in range(rng.randint(0, 3)):
+                jk = ('l', [jk] if rng.random() < 0.6 else [V.scalar(rng), jk])
+            params += [(S('jk'), jk), (S('jt'), S(rng.choice(['j ${jk}', '${jk} j', '${jk}${jk}'])))]
         rng.shuffle(params)
         d = G.doc(incs, [rng.choice(['a', '~a', '~', ''])], ('m', params))
         r = rng.random()
